@@ -12,7 +12,7 @@
                                (i64::MAX is not a usable sequence number: set() ends there since
                                6f37365), parameter id <> PID_SENTINEL
      C08_known_len             a submessage body or a padded parameter longer than 65535 bytes
-     C08_known_reply           INFO_REPLY built with multicast_flag = true *)
+   (INFO_REPLY with the multicast flag round-trips since the repair 4006ca4; no class left for it) *)
 From DustDDS Require Import Base.Machine Base.Bytes Wire.WireModel Wire.WireProofs Wire.WireRoundProofs.
 Open Scope Z_scope.
 
@@ -20,7 +20,7 @@ Open Scope Z_scope.
    both endiannesses, every length field exact *)
 Theorem C08_message_roundtrip : forall e h subs,
   wf_hdrb h = true -> forallb wf_subb subs = true -> len subs <= 65536 ->
-  existsb C08_known_len subs = false -> existsb C08_known_reply subs = false ->
+  existsb C08_known_len subs = false ->
   exists bytes,
     encode_umessage e h subs = Ok bytes /\
     parse_observe bytes = Ok (h, map (fun s => Ok (canon_sub s)) subs) /\
@@ -34,14 +34,6 @@ Theorem C08_roundtrip_refuted_big :
   parse_observe big_bytes <> Ok (h0, map (fun s => Ok (canon_sub s)) [big_data; hb]) /\
   lengths_exact true (map sub_id [big_data; hb]) (skipn 20 big_bytes) = false.
 Proof. exact roundtrip_refuted_big. Qed.
-
-(* INFO_REPLY with the multicast flag comes back without flag and multicast list
-   (finding C08-inforeply-multicast-flag) *)
-Theorem C08_roundtrip_refuted_reply :
-  forallb wf_subb [reply_m] = true /\ C08_known_len reply_m = false /\ C08_known_reply reply_m = true /\
-  exists bytes, encode_umessage true h0 [reply_m] = Ok bytes /\
-    parse_observe bytes = Ok (h0, [Ok (InfoReply false [mk_loc 1 7400 (repeat 0 16)] [])]).
-Proof. exact roundtrip_refuted_reply. Qed.
 
 (* the integer codecs in both endiannesses, and sequence numbers over the full i64 range *)
 Theorem C08_int_codec : forall e n x, dec_int e (enc_int e n x) = x mod 256 ^ Z.of_nat n.
@@ -63,25 +55,26 @@ Theorem C08_fragment_number_set_new : forall s, valid_fnsetb s = true ->
             fnset_members x = Ok (canon_members (ns_members s)).
 Proof. intros s H; destruct (fnset_new_valid s H) as (x & A & _ & B & C); exists x; auto. Qed.
 
-(* non-vacuity: a concrete message with sets, inline QoS and payload meets the hypotheses *)
+(* non-vacuity: a concrete message with sets, inline QoS, payload and an INFO_REPLY with the
+   multicast flag (regression of 4006ca4) meets the hypotheses *)
 Example C08_nonvacuous :
   let subs : list usub :=
     [InfoTs false 4 5;
      Data true true false false [1;2;3;4] [6;7;8;9] 9223372036854775807 [mk_param 112 [10;11;12]] [170;187;204];
      AckNack true [1;2;3;4] [6;7;8;9] (mk_nset (-9223372036854775808) [-9223372036854775808; -9223372036854775553]) (-3);
-     NackFrag [1;2;3;4] [6;7;8;9] 7 (mk_nset 4294967040 [4294967295; 4294967040]) 1] in
+     NackFrag [1;2;3;4] [6;7;8;9] 7 (mk_nset 4294967040 [4294967295; 4294967040]) 1;
+     reply_m] in
   wf_hdrb h0 = true /\ forallb wf_subb subs = true /\
-  existsb C08_known_len subs = false /\ existsb C08_known_reply subs = false /\
+  existsb C08_known_len subs = false /\
   is_ok (encode_umessage false h0 subs) = true.
 Proof.
   cbv zeta. split; [vm_compute; reflexivity|]. split; [vm_compute; reflexivity|].
-  split; [vm_compute; reflexivity|]. split; [vm_compute; reflexivity|].
+  split; [vm_compute; reflexivity|].
   vm_compute; reflexivity.
 Qed.
 
 Print Assumptions C08_message_roundtrip.
 Print Assumptions C08_roundtrip_refuted_big.
-Print Assumptions C08_roundtrip_refuted_reply.
 Print Assumptions C08_int_codec.
 Print Assumptions C08_sequence_number_full_range.
 Print Assumptions C08_sequence_number_set_new.
